@@ -33,10 +33,15 @@ FUNCS = {
     "builtins.range": range, "numpy.sin": np.sin, "numpy.cos": np.cos, "numpy.exp": np.exp, "numpy.arccos": np.arccos,
     "numpy.arctan2": np.arctan2, "numpy.ones": np.ones, "numpy.repeat": np.repeat, "numpy.power": np.power, "numpy.isclose": np.isclose,
     "math.sqrt": __import__("math").sqrt, "math.sin": __import__("math").sin, "math.cos": __import__("math").cos,
-    "builtins.complex": complex,
+    "builtins.complex": complex, "numpy.copy": np.copy, "numpy.eye": np.eye, "numpy.diag": np.diag,
 }
+try:        # optional: sparse adjacency forms
+    import scipy.sparse as _sps
+    FUNCS.update({"scipy.sparse.csr_matrix": _sps.csr_matrix, "scipy.sparse.coo_matrix": _sps.coo_matrix, "scipy.sparse.csc_matrix": _sps.csc_matrix})
+except Exception:  # noqa
+    pass
 METHODS = {".sum", ".all", ".any", ".max", ".min", ".mean", ".std", ".ptp", ".argsort", ".astype", ".copy", ".tolist", ".item",
-           ".dot", ".transpose", ".round", ".nonzero", ".flatten", ".ravel", ".conj", ".reshape", ".argmax", ".argmin", ".prod"}
+           ".dot", ".transpose", ".round", ".nonzero", ".flatten", ".ravel", ".conj", ".reshape", ".argmax", ".argmin", ".prod", ".toarray", ".repeat", ".cumsum"}
 
 
 def ev(t: Term, env: Dict[Term, Any]) -> Any:
